@@ -658,3 +658,71 @@ pub fn with_capacity_model_bounded<T>(cap: usize) -> Vec<T> {
     v.reserve_exact(16);
     v
 }
+
+/// Model of `vec![elem; n]` (`alloc::vec::from_elem`) for the C17 harnesses: the request must
+/// stay within the C17 bound; larger element counts than any harness input can back are then cut
+/// (`assume`), so the model never hands out a vector shorter than asked for.
+#[cfg(kani)]
+pub fn from_elem_model_bounded<T: Clone>(elem: T, n: usize) -> Vec<T> {
+    let sz = core::mem::size_of::<T>();
+    assert!(sz == 0 || n <= (isize::MAX as usize) / sz, "capacity overflow: vec![x; n] from an unchecked count");
+    assert!(
+        n * sz <= 64 * C17_MAX_INPUT + 4096,
+        "memory requested out of proportion to the input (more than 64 x input bytes + 4096)"
+    );
+    kani::assume(n <= 16);
+    let mut v = Vec::new();
+    v.reserve_exact(16);
+    let mut i = 0;
+    while i < n {
+        v.push(elem.clone());
+        i += 1;
+    }
+    v
+}
+
+// Native side of C17 (concrete playback cannot apply stubs): when a C17 counterexample is replayed
+// natively, a counting global allocator (lib.rs, test builds with feature c17 only) records the
+// largest single request made while the harness body runs, and the harness ends with the same
+// bound the models assert under Kani.
+#[cfg(all(test, feature = "c17"))]
+pub mod native_alloc {
+    use std::alloc::{GlobalAlloc, Layout, System};
+    use std::sync::atomic::{AtomicUsize, Ordering};
+    pub static MAX_REQ: AtomicUsize = AtomicUsize::new(0);
+    pub struct Counting;
+    unsafe impl GlobalAlloc for Counting {
+        unsafe fn alloc(&self, l: Layout) -> *mut u8 {
+            MAX_REQ.fetch_max(l.size(), Ordering::SeqCst);
+            System.alloc(l)
+        }
+        unsafe fn alloc_zeroed(&self, l: Layout) -> *mut u8 {
+            MAX_REQ.fetch_max(l.size(), Ordering::SeqCst);
+            System.alloc_zeroed(l)
+        }
+        unsafe fn realloc(&self, p: *mut u8, l: Layout, n: usize) -> *mut u8 {
+            MAX_REQ.fetch_max(n, Ordering::SeqCst);
+            System.realloc(p, l, n)
+        }
+        unsafe fn dealloc(&self, p: *mut u8, l: Layout) {
+            System.dealloc(p, l)
+        }
+    }
+}
+/// Start of a C17 harness body (no-op under Kani).
+pub fn c17_native_reset() {
+    #[cfg(all(test, feature = "c17"))]
+    native_alloc::MAX_REQ.store(0, std::sync::atomic::Ordering::SeqCst);
+}
+/// End of a C17 harness body (no-op under Kani): the bound on the largest single request.
+pub fn c17_native_check() {
+    #[cfg(all(test, feature = "c17"))]
+    {
+        let m = native_alloc::MAX_REQ.load(std::sync::atomic::Ordering::SeqCst);
+        assert!(
+            m <= 64 * C17_MAX_INPUT + 4096,
+            "memory requested out of proportion to the input: {} bytes in one request",
+            m
+        );
+    }
+}
